@@ -119,6 +119,9 @@ def _check(prop, tier, seed, replay, work, t0):
             e = json.loads(ln)
             if e["ev"] == "Reset":
                 break
+            if e["ev"] == "Conc":
+                ops.append({"op": "concurrent-" + e["op"] + "@" + e["shard"], "i": e["i"], "f": e["res"]})
+                continue
             ops.append({"op": "tick", "i": "none", "f": "ok"} if e["ev"] == "Tick" else {"op": e["op"], "i": e["i"], "f": e["f"]})
         sig = {"invariant": v["names"][0]}
         f = vlib.known_match(prop, sig)
